@@ -194,9 +194,9 @@ def stage_key(r):
 
 
 @spec
-def gen_name(path, k):
-    """name of backup generation k of a rotated log"""
-    return path + "." + str(k)
+def is_gen(path, n, p):
+    """p is the name of one of the backup generations 1..n of `path` (gname/gidx: see contracts/c16_logs.py)"""
+    return 1 <= gidx(path, p) and gidx(path, p) <= n and p == gname(path, gidx(path, p))
 
 
 @spec
